@@ -253,12 +253,29 @@ class GateInterp(Interp):
             g = e.generators[0]
             it = force(ctx, self.eval(ctx, g.iter, env, fi))
             if isinstance(it, VFiles):
-                env2 = dict(env)
-                self.assign(ctx, g.target, VFile("@elem"), env2, fi)
-                r = force(ctx, self.eval(ctx, e.elt, env2, fi))
-                if isinstance(r, VFile) and r.idx == "@elem":
-                    return VFiles()  # an element-wise image of the model files that keeps their identity and order
-                raise Unsupported("comprehension over the model files that does not map each file to itself")
+                # one pass over the model files that collects one value per file: either the file itself (an element-wise image such as
+                # [pathlib.Path(m) for m in args.model]: still "the model files") or the document loaded from it (a cell of documents)
+                cell = self.new_cell(ctx, f"(as seq.empty {SEQ})")
+                kinds = set()
+
+                def body(i: str):
+                    env3 = dict(env)
+                    self.assign(ctx, g.target, VFile(i), env3, fi)
+                    v = force(ctx, self.eval(ctx, e.elt, env3, fi))
+                    if isinstance(v, VFile) and v.idx == i:
+                        kinds.add("file")
+                        self.heap(ctx)[cell.cid] = f"(seq.++ {self.heap(ctx)[cell.cid]} {unit(i)})"
+                    elif isinstance(v, VDoc):
+                        kinds.add("doc")
+                        self.heap(ctx)[cell.cid] = f"(seq.++ {self.heap(ctx)[cell.cid]} {unit(v.idx)})"
+                    else:
+                        raise Unsupported("comprehension over the model files that collects something other than the files or the loaded documents")
+
+                self.files_loop(ctx, e.lineno * 1000 + e.col_offset, body)
+                if kinds == {"file"}:
+                    del self.heap(ctx)[cell.cid]
+                    return VFiles()
+                return cell
             if isinstance(it, (VList, VTuple)):
                 out = []
                 for item in it.items:
@@ -446,10 +463,20 @@ class GateInterp(Interp):
             return False
         if s.orelse:
             raise Unsupported("for-else")
+
+        def body(i: str):
+            self.assign(ctx, s.target, VFile(i), env, fi)
+            self.exec_block(ctx, s.body, env, fi)
+
+        self.files_loop(ctx, s.lineno, body)
+        return True
+
+    def files_loop(self, ctx: Ctx, loop_id: int, body) -> None:
+        """Hoare rule for one pass over the n model files (a for statement or a comprehension): candidates' loop-init / loop-preserve
+        obligations, then either an arbitrary iteration (path ends) or the state the peeled last iteration leaves."""
         if ctx.ghost.get("in_loop"):
             raise Unsupported("nested loop over the model files")
         n = self.n(ctx)
-        loop_id = s.lineno
         entry = dict(self.heap(ctx))
         cands = self.candidates(ctx, loop_id)
         self.loops_seen[loop_id] = [c[0] for c in cands]
@@ -469,9 +496,8 @@ class GateInterp(Interp):
         for ax in instance(i):
             ctx.assume(ax)
         ctx.ghost["in_loop"] = True
-        self.assign(ctx, s.target, VFile(i), env, fi)
         try:
-            self.exec_block(ctx, s.body, env, fi)
+            body(i)
         finally:
             ctx.ghost["in_loop"] = False
         if k == 0:
@@ -479,7 +505,6 @@ class GateInterp(Interp):
             for c in cands:
                 ctx.side_obligations.append((f"loop-preserve:{loop_id}:{c[0]}", And(*ctx.pc, Not(self.cand_term(ctx, c, i1, entry)))))
             raise PyRaise(STEP_END, [], "an arbitrary iteration was checked")
-        return True
 
     def exec_stmt(self, ctx: Ctx, s: ast.stmt, env, fi):
         if isinstance(s, (ast.Break, ast.Continue)):
